@@ -181,7 +181,7 @@ func TestVF_C03(t *testing.T) {
 					if string(m.From) == string(h.ID()) {
 						fromTag = 1
 					}
-					lit := fmt.Sprintf("{| k_policy := %s; k_anon := %v;\n   k_msg := {| m_from := %s; m_data := %s; m_seqno := %s; m_topic := %s; m_sig := %s; m_key := %s; m_unk := %s |};\n   k_oracle := {| o_pid_parses := %v; o_extractable := %v; o_key_unmarshals := %v; o_key_matches := %v; o_verifies := %v |};\n   k_own := %v; o_delivered := %v; o_reason := %d |}",
+					lit := fmt.Sprintf("{| k_policy := %s; k_anon := %v;\n   k_msg := {| m_from := %s; m_data := %s; m_seqno := %s; m_topic := %s; m_sig := %s; m_key := %s; m_unk := %s |};\n   k_oracle := {| o_pid_parses := %v; o_extractable := %v; o_key_unmarshals := %v; o_key_matches := %v; o_verifies := %v |};\n   k_own := %v; k_local := false; o_delivered := %v; o_reason := %d |}",
 						pol.name, anon, vfOptTag(m.From, fromTag), vfOptTag(m.Data, 3), vfOptTag(m.Seqno, 4), "(Some 5)", vfOptTag(m.Signature, 6), vfOptTag(m.Key, 7), vfOptTag(m.XXX_unrecognized, 8),
 						parses, extractable, unmarshals, matches, verifies, own, del, rs)
 					cs.add(lit, map[string]any{"policy": pol.name, "anonymous": anon, "mutation": kind, "from_len": len(m.From), "has_sig": m.Signature != nil, "has_key": m.Key != nil,
@@ -227,6 +227,8 @@ func TestVF_C03(t *testing.T) {
 							"from-garbage":  func(m *pb.Message) { m.From = []byte{1, 2, 3} },
 							"from-nil":      func(m *pb.Message) { m.From = nil },
 							"from-self":     func(m *pb.Message) { m.From = []byte(h.ID()) },
+							"from-self-unsigned": func(m *pb.Message) { m.From = []byte(h.ID()); m.Signature = nil; m.Key = nil },
+							"from-self-unsigned-no-seqno": func(m *pb.Message) { m.From = []byte(h.ID()); m.Signature = nil; m.Key = nil; m.Seqno = nil },
 							"sig-nil":       func(m *pb.Message) { m.Signature = nil; m.Key = nil },
 							"sig-flip":      func(m *pb.Message) { m.Signature[0] ^= 1 },
 							"sig-garbage":   func(m *pb.Message) { m.Signature = []byte{9, 9, 9} },
@@ -285,6 +287,7 @@ func TestVF_C03(t *testing.T) {
 	}
 	// messages a correct node publishes itself, in every author mode, offered to a StrictSign and a LaxNoSign receiver
 	vfC03Own(t, cs, keys)
+	vfC03OwnPolicies(t, cs, keys)
 	cs.flush("validly signed messages (Ed25519, secp256k1, RSA, ECDSA authors) mutated field by field and in random pairs (data, topic, seqno, from, signature, key, unknown field, swapped signature, re-signed with a non-matching key, stripped), under each policy x anonymous mode; plus a correct node's own publications in every author mode replayed at correct receivers. " +
 		"non-trivial = a mutated message; distinct = hash of policy+fields+oracle+observation")
 }
@@ -378,7 +381,7 @@ func vfC03Own(t *testing.T, cs *vfCases, keys []vfKey) {
 					if !del {
 						rs = 9
 					}
-					lit := fmt.Sprintf("{| k_policy := %s; k_anon := false;\n   k_msg := {| m_from := %s; m_data := %s; m_seqno := %s; m_topic := %s; m_sig := %s; m_key := %s; m_unk := None |};\n   k_oracle := {| o_pid_parses := %v; o_extractable := %v; o_key_unmarshals := %v; o_key_matches := %v; o_verifies := %v |};\n   k_own := true; o_delivered := %v; o_reason := %d |}",
+					lit := fmt.Sprintf("{| k_policy := %s; k_anon := false;\n   k_msg := {| m_from := %s; m_data := %s; m_seqno := %s; m_topic := %s; m_sig := %s; m_key := %s; m_unk := None |};\n   k_oracle := {| o_pid_parses := %v; o_extractable := %v; o_key_unmarshals := %v; o_key_matches := %v; o_verifies := %v |};\n   k_own := true; k_local := false; o_delivered := %v; o_reason := %d |}",
 						pol, vfOptTag(pm.From, 2), vfOptTag(pm.Data, 3), vfOptTag(pm.Seqno, 4), "(Some 5)", vfOptTag(pm.Signature, 6), vfOptTag(pm.Key, 7),
 						parses, extractable, unmarshals, matches, verifies, del, rs)
 					cs.add(lit, map[string]any{"own_publication": md.name, "receiver_policy": pol, "has_key": pm.Key != nil, "delivered": del}, true)
@@ -392,4 +395,104 @@ func vfC03Own(t *testing.T, cs *vfCases, keys []vfKey) {
 		cancel()
 		synctest.Wait()
 	})
+}
+
+// Own publications judged on the publishing node itself, under every signature policy, with and without an author, with the
+// node's own identity or a per-publish key (WithSecretKeyAndPeerId): what Topic.Publish hands to the local subscribers (and
+// hence to the router) must pass the same policy check as a message from a peer, except for the self-origin rule.
+func vfC03OwnPolicies(t *testing.T, cs *vfCases, keys []vfKey) {
+	synctest.Test(t, func(t *testing.T) {
+		ctx, cancel := context.WithCancel(context.Background())
+		defer cancel()
+		h := vfHosts(t, 1)[0]
+		idOf := func(m *pb.Message) string { b, _ := m.Marshal(); s := sha256.Sum256(b); return string(s[:]) }
+		n := 0
+		for _, pol := range []struct {
+			name string
+			p    MessageSignaturePolicy
+		}{{"StrictSign", StrictSign}, {"StrictNoSign", StrictNoSign}, {"LaxSign", LaxSign}, {"LaxNoSign", LaxNoSign}} {
+			for _, anon := range []bool{false, true} {
+				for _, po := range []struct {
+					name string
+					pub  []PubOpt
+				}{{"node-identity", nil}, {"per-publish-key-ed25519", []PubOpt{WithSecretKeyAndPeerId(keys[0].priv, keys[0].pid)}},
+					{"per-publish-key-rsa", []PubOpt{WithSecretKeyAndPeerId(keys[2].priv, keys[2].pid)}}} {
+					var mu sync.Mutex
+					var rejected *pb.Message
+					reason := 0
+					tr := &vfC03Tracer{onReject: func(m *Message, r string) {
+						code := map[string]int{RejectMissingSignature: 1, RejectUnexpectedSignature: 2, RejectUnexpectedAuthInfo: 3, RejectSelfOrigin: 4, RejectInvalidSignature: 5}[r]
+						if code == 0 {
+							code = 9
+						}
+						mu.Lock()
+						rejected, reason = m.Message, code
+						mu.Unlock()
+					}}
+					pctx, pcancel := context.WithCancel(ctx)
+					opts := []Option{WithMessageSignaturePolicy(pol.p), WithRawTracer(tr), WithMessageIdFn(idOf)}
+					if anon {
+						opts = append(opts, WithNoAuthor())
+					}
+					ps, err := NewFloodSub(pctx, h, opts...)
+					if err != nil {
+						pcancel()
+						continue // a combination the constructor refuses
+					}
+					tp, _ := ps.Join("t")
+					sub, _ := tp.Subscribe()
+					n++
+					perr := tp.Publish(pctx, []byte(fmt.Sprintf("own-policy-%d", n)), po.pub...)
+					synctest.Wait()
+					var got *pb.Message
+					select {
+					case m := <-sub.ch:
+						got = m.Message
+					default:
+					}
+					mu.Lock()
+					rej, rs := rejected, reason
+					mu.Unlock()
+					m := got
+					if m == nil {
+						m = rej
+					}
+					if m != nil {
+						parses, extractable, unmarshals, matches, verifies := vfC03Oracle(m)
+						fromTag := 2
+						if string(m.From) == string(h.ID()) {
+							fromTag = 1
+						}
+						if got != nil {
+							rs = 0
+						}
+						// the policy in force is what the node runs with: WithNoAuthor switches signing off
+						lit := fmt.Sprintf("{| k_policy := %s; k_anon := %v;\n   k_msg := {| m_from := %s; m_data := %s; m_seqno := %s; m_topic := %s; m_sig := %s; m_key := %s; m_unk := None |};\n   k_oracle := {| o_pid_parses := %v; o_extractable := %v; o_key_unmarshals := %v; o_key_matches := %v; o_verifies := %v |};\n   k_own := %v; k_local := true; o_delivered := %v; o_reason := %d |}",
+							vfPolicyName(ps.signPolicy), anon, vfOptTag(m.From, fromTag), vfOptTag(m.Data, 3), vfOptTag(m.Seqno, 4), "(Some 5)", vfOptTag(m.Signature, 6), vfOptTag(m.Key, 7),
+							parses, extractable, unmarshals, matches, verifies, po.pub == nil, got != nil, rs)
+						cs.add(lit, map[string]any{"own_publication_on_publisher": po.name, "configured_policy": pol.name, "policy_in_force": vfPolicyName(ps.signPolicy), "anonymous": anon,
+							"publish_error": fmt.Sprint(perr), "delivered_locally": got != nil, "has_sig": m.Signature != nil, "has_from": m.From != nil, "reason": rs}, true)
+						cs.kind("own-on-publisher:" + po.name)
+					}
+					pcancel()
+					synctest.Wait()
+				}
+			}
+		}
+		cancel()
+		synctest.Wait()
+	})
+}
+
+func vfPolicyName(p MessageSignaturePolicy) string {
+	switch p {
+	case StrictSign:
+		return "StrictSign"
+	case StrictNoSign:
+		return "StrictNoSign"
+	case LaxSign:
+		return "LaxSign"
+	default:
+		return "LaxNoSign"
+	}
 }
